@@ -804,11 +804,62 @@ func (sh *shaper) check(s *Shape, inSeq bool, sep string, probs *[]keyProblem) {
 }
 
 // checkComponent: comp is the per-column piece of a repetition; sep the Join separator.
-func (sh *shaper) checkComponent(comp *Shape, sep string, probs *[]keyProblem) {
-	branches := []*Shape{comp}
-	if comp.K == "alt" {
-		branches = comp.Sub
+// distribute rewrites concat(a, alt(b,c), d) into alt(concat(a,b,d), concat(a,c,d)) (bounded), so that
+// every alternative of a component is a flat sequence of items.
+func distribute(s *Shape) []*Shape {
+	switch s.K {
+	case "alt":
+		var out []*Shape
+		for _, x := range s.Sub {
+			out = append(out, distribute(x)...)
+		}
+		return out
+	case "concat":
+		res := []*Shape{konst("")}
+		for _, it := range s.Sub {
+			var alts []*Shape
+			if it.K == "alt" || it.K == "concat" {
+				alts = distribute(it)
+			} else {
+				alts = []*Shape{it}
+			}
+			var next []*Shape
+			for _, r := range res {
+				for _, al := range alts {
+					next = append(next, concatKeep(r, al))
+				}
+			}
+			if len(next) > 64 {
+				return []*Shape{s}
+			}
+			res = next
+		}
+		return res
 	}
+	return []*Shape{s}
+}
+
+// concatKeep concatenates without merging framed units away.
+func concatKeep(a, b *Shape) *Shape {
+	var items []*Shape
+	for _, x := range []*Shape{a, b} {
+		if x.K == "concat" {
+			items = append(items, x.Sub...)
+		} else if !(x.K == "const" && x.S == "") {
+			items = append(items, x)
+		}
+	}
+	if len(items) == 0 {
+		return konst("")
+	}
+	if len(items) == 1 {
+		return items[0]
+	}
+	return &Shape{K: "concat", Sub: items}
+}
+
+func (sh *shaper) checkComponent(comp *Shape, sep string, probs *[]keyProblem) {
+	branches := distribute(comp)
 	// 1. every branch must be self-delimiting: no unframed raw part, unless a separator that the raw
 	//    part cannot contain follows — raw strings can contain anything, so an unframed raw fails.
 	for _, b := range branches {
